@@ -40,7 +40,7 @@ def run(tier, replay=None):
     if tier == "thorough":
         spaths += graphwalk.random_walks(g, 40, 30, rnd)
     smeta = {}
-    for kind in ("streamable", "stateless", "legacy", "stdio"):
+    for kind in ("streamable", "stateless", "nosession", "legacy", "stdio"):
         for n, p in enumerate(spaths):
             steps, exp = [], []
             for ei in p:
